@@ -614,6 +614,8 @@ class Quaternion(SMUserList):
         :seealso: :func:`__mul__`
         """
         # scalar * quaternion case
+        if not base.isscalar(left):
+            raise ValueError('operands to * are of different types')
         return Quaternion([left * q._A for q in right])
 
     def __imul__(left, right):  # lgtm[py/not-named-self] pylint: disable=no-self-argument
